@@ -374,6 +374,9 @@ class LoopTranslator:
         return s
 
     def assign_name(self, cx: Ctx, name: str, s: str, t: str, like: Optional[Var] = None):
+        want = self.params.get("local:" + name)
+        if want is not None and want != t:
+            s, t = self.coerce(s, t, want), want      # declared type of a local (e.g. a float accumulator seeded with `0`)
         nm = cx.fresh(name)
         cx.lets.append(f"let {nm} : {lean_ty(t)} := {s}")
         old = cx.env.get(name)
@@ -1023,7 +1026,7 @@ class LoopTranslator:
             if p not in self.params:
                 raise TranslateError(f"{self.fname}: parameter {p} has no declared type")
         for p in self.params:
-            if p not in declared:
+            if p not in declared and not p.startswith("local:"):
                 raise TranslateError(f"{self.fname}: declared parameter {p} is gone")
         for p in declared:
             t = self.params[p]
@@ -1156,6 +1159,8 @@ LOOPS = {
     "rolling_sum_or_mean": ("numba", "_rolling_sum_or_mean_1d",
                             {"group_key": "A(Int)", "values": "LL(Val)", "ngroups": "Int", "window": "Int",
                              "min_periods": "OptInt", "mask": "OptA(Bool)", "null_value": "Val", "want_mean": "Bool"}),
+    "ema_adjusted": ("emas", "_ema_adjusted",
+                     {"arr": "A(F)", "alpha": "F", "local:residual": "F", "local:residual_weights": "F"}, "F"),
     "ema_grouped": ("emas", "_ema_grouped",
                     {"group_key": "A(Int)", "values": "A(F)", "alpha": "F", "ngroups": "Int", "mask": "OptA(Bool)"}, "F"),
     "ema_grouped_timed": ("emas", "_ema_grouped_timed",
